@@ -4,6 +4,7 @@ import (
 	"bufio"
 	"fmt"
 	"math/rand"
+	"strings"
 	"testing"
 )
 
@@ -15,16 +16,20 @@ func GenTrace(t *testing.T, seed int64, steps int, prof Profile, w *bufio.Writer
 	g := &Gen{E: e, R: r, P: prof}
 	lines := []string{fmt.Sprintf("config %d %d %d", cfg.NVals, cfg.NUsers, cfg.NativeSelf)}
 	fmt.Fprintf(w, "# trace seed=%d profile=%s\n", seed, prof.Name)
+	halted := false
 	run := func(line string) {
 		lines = append(lines, line)
 		for _, st := range e.Exec(line) {
 			WriteStep(w, st)
+			if strings.HasPrefix(st.Op, "O endblock") && st.Res != "R ok" {
+				halted = true // a failing EndBlocker halts the chain: the history ends here
+			}
 		}
 	}
 	for _, l := range g.Setup() {
 		run(l)
 	}
-	for i := 0; i < steps; i++ {
+	for i := 0; i < steps && !halted; i++ {
 		run(g.Next())
 	}
 	fmt.Fprintf(w, "# end seed=%d\n", seed)
